@@ -17,4 +17,20 @@ theorem tie_glue_render_doc : Generated.renderDocCalls =
      "json.NewEncoder(out)", "enc.SetIndent(\"\", \" \")", "enc.SetEscapeHTML(true)", "enc.Encode(doc)",
      "fmt.Errorf(\"encoding spdx sbom: %w\", err)"] := rfl
 
+/-- where GenerateImageSBOM takes every input of the generator from: layers and digest from the image that was built,
+the package list from the installed database of the file system that becomes the image, OS data and embedded SBOMs
+from the build's own file system (`bc.fs`: on top of a base image that is the new layer only) -/
+theorem tie_glue_sbom_inputs : Generated.sbomImageInputs =
+    ["s := newSBOM(ctx, bc.fs, bc.o, bc.ic, bde)",
+     "s.ImageInfo.Layers = m.Layers <- img.Manifest()",
+     "s.OS.Name = info.Name <- readReleaseData(bc.fs)",
+     "s.OS.ID = info.ID <- readReleaseData(bc.fs)",
+     "s.OS.Version = info.VersionID <- readReleaseData(bc.fs)",
+     "s.Packages = pkgs <- bc.apk.GetInstalled()",
+     "s.ImageInfo.ImageDigest = h.String() <- img.Digest()",
+     "s.ImageInfo.Arch = arch",
+     "generator.Generators(bc.fs)"] := rfl
+
+theorem tie_glue_sbom_packages_expr : Generated.sbomPackagesExpr = "bc.apk.GetInstalled()" := rfl
+
 end Apko.C11.Glue
